@@ -273,7 +273,15 @@ impl RoutingThread {
         let mut peer_key_list: Vec<SaitoPublicKey> = vec![];
         {
             let peers = self.network.peer_lock.read().await;
-            let peer = peers.find_peer_by_index(peer_index).unwrap();
+            let peer = peers.find_peer_by_index(peer_index);
+            if peer.is_none() || peer.unwrap().public_key.is_none() {
+                warn!(
+                    "ignoring ghost chain request from peer : {:?} since it has not completed the handshake",
+                    peer_index
+                );
+                return;
+            }
+            let peer = peer.unwrap();
             peer_key_list.push(peer.public_key.unwrap());
             peer_key_list.append(&mut peer.key_list.clone());
         }
